@@ -125,7 +125,7 @@ def parse_unquoted_literal(an_elem):
 def unprefixize_uri_if_possible(target_uri, prefix_namespaces_dict, include_corners=True):
     for a_prefix in prefix_namespaces_dict:
         if target_uri.startswith(a_prefix+":"):
-            result = target_uri.replace(a_prefix+":", prefix_namespaces_dict[a_prefix])
+            result = prefix_namespaces_dict[a_prefix] + target_uri[len(a_prefix) + 1:]  # Only the leading prefix
             if include_corners:
                 result = add_corners(result)
             return result
@@ -134,7 +134,7 @@ def unprefixize_uri_if_possible(target_uri, prefix_namespaces_dict, include_corn
 def unprefixize_uri_mandatory(target_uri, prefix_namespaces_dict, include_corners=True):
     for a_prefix in prefix_namespaces_dict:
         if target_uri.startswith(a_prefix+":"):
-            result = target_uri.replace(a_prefix+":", prefix_namespaces_dict[a_prefix])
+            result = prefix_namespaces_dict[a_prefix] + target_uri[len(a_prefix) + 1:]  # Only the leading prefix
             if include_corners:
                 result = add_corners(result)
             return result
